@@ -37,9 +37,9 @@ impl Default for C14 {
 /// banks an instruction transacts in, with the role class
 fn fin_banks(ix: &Ix) -> Vec<(Pubkey, &'static str)> {
     match ix.tag {
-        "deposit" => vec![(ix.accounts[3].pubkey, "deposit")],
+        "deposit" | "solend_deposit" | "kamino_deposit" | "drift_deposit" => vec![(ix.accounts[3].pubkey, "deposit")],
         "borrow" => vec![(ix.accounts[3].pubkey, "borrow")],
-        "withdraw" => vec![(ix.accounts[3].pubkey, "withdraw")],
+        "withdraw" | "solend_withdraw" | "kamino_withdraw" | "drift_withdraw" => vec![(ix.accounts[3].pubkey, "withdraw")],
         "repay" => vec![(ix.accounts[3].pubkey, "repay")],
         "liquidate" => vec![(ix.accounts[1].pubkey, "liquidate"), (ix.accounts[2].pubkey, "liquidate")],
         "handle_bankruptcy" => vec![(ix.accounts[2].pubkey, "bankruptcy")],
@@ -52,7 +52,8 @@ fn group_of_ix(ix: &Ix) -> Option<Pubkey> {
         "deposit" | "borrow" | "withdraw" | "repay" | "liquidate" | "handle_bankruptcy" | "close_balance"
         | "collect_bank_fees" | "withdraw_fees" | "withdraw_insurance" | "withdraw_fees_permissionless"
         | "withdraw_emissions" | "withdraw_emissions_permissionless" | "transfer_to_new_account"
-        | "transfer_to_new_account_pda" | "purge_deleverage_balance" => ix.accounts.first().map(|m| m.pubkey),
+        | "transfer_to_new_account_pda" | "purge_deleverage_balance" | "solend_deposit" | "solend_withdraw" | "kamino_deposit"
+        | "kamino_withdraw" | "drift_deposit" | "drift_withdraw" => ix.accounts.first().map(|m| m.pubkey),
         _ => None,
     }
 }
